@@ -578,6 +578,20 @@ def run_family(prop, tier):
     specs = make_specs(prop, tier, rng)
     _strict[0] = prop in SCORE_PROPS
     events, metas, hangs = run_specs_parallel(specs, prop.lower())
+    # a search that gave no result within the stall limit is run once more, on its own and with a five times longer limit, before
+    # it is called non-terminating: with every core busy (several checks at once) a worker can be starved for that long
+    confirmed = []
+    for (i, why) in hangs:
+        if why.startswith('no result after'):
+            try:
+                _, _, again = run_specs_parallel([specs[i]], prop.lower() + '_retry', stall_s=600)
+            except Machinery:
+                again = [(0, why)]
+            if not again:
+                print('NOTE instance %d gave no result within the stall limit under load and terminated when run on its own' % (i + 1))
+                continue
+        confirmed.append((i, why))
+    hangs = confirmed
     kinds = {}
     for e_i, sp in enumerate(specs):
         kinds[sp[0]['kind']] = kinds.get(sp[0]['kind'], 0) + 1
